@@ -152,6 +152,8 @@ TypeOf(e, sch) ==
             ELSE IF e.f = "coalesce" THEN
                  (IF Len(ts) >= 1 /\ \A i \in 1..Len(ts) : ts[i] = ts[1] THEN ts[1] ELSE ERR)
             ELSE LET sig == FnResolve(e.f, ts) IN IF sig = <<>> THEN ERR ELSE OutOf(e.f, sig)
+      [] e.k = "inlist" ->          \* x [NOT] IN (subquery), after the subquery has been evaluated (BQLSelect!ResolveE)
+            LET ta == TypeOf(e.a, sch) IN IF ta = ERR THEN ERR ELSE "bool"
       [] e.k = "agg" ->
             IF e.a = Star THEN AggType(e.f, "star")
             ELSE LET t == TypeOf(e.a, sch) IN IF t = ERR THEN ERR ELSE AggType(e.f, t)
@@ -286,6 +288,12 @@ Eval(e, row, sch) ==
                       ELSE BoolV(~ValLess(a, lo) /\ ~ValLess(hi, a))
       [] e.k = "and" -> AndLoop(e.args, 1, row, sch)
       [] e.k = "or" -> OrLoop(e.args, 1, row, sch, BoolV(FALSE))
+      [] e.k = "inlist" ->
+            \* membership in the subquery's single output column; NULL when x is NULL or the subquery returned no row
+            LET a == Eval(e.a, row, sch) IN
+            IF a.t = "ood" \/ e.l.t = "ood" THEN OOD
+            ELSE IF a.t = "null" \/ e.l.t = "null" THEN Null
+            ELSE LET m == \E i \in 1..Len(e.l.l) : ValEq(a, e.l.l[i]) IN BoolV(IF e.neg THEN ~m ELSE m)
       [] e.k = "call" ->
             IF e.f = "coalesce" THEN CoalesceLoop(e.args, 1, row, sch)
             ELSE LET vs == ArgLoop(e.args, 1, row, sch, <<>>)
